@@ -89,14 +89,18 @@ static DP_UNUSED int dp_udp_bound(struct sockaddr_in *sin)
 }
 static DP_UNUSED int dp_tcp_listener(struct sockaddr_in *sin)
 {
-	int s = socket(AF_INET, SOCK_STREAM | SOCK_NONBLOCK | SOCK_CLOEXEC, 0), one = 1;
-	socklen_t sl = sizeof *sin;
-	if (s < 0) return -1;
-	setsockopt(s, SOL_SOCKET, SO_REUSEADDR, &one, sizeof one);
-	memset(sin, 0, sizeof *sin);
-	sin->sin_family = AF_INET; sin->sin_addr.s_addr = htonl(INADDR_LOOPBACK); sin->sin_port = 0;
-	if (bind(s, (struct sockaddr *)sin, sizeof *sin) < 0 || listen(s, 8) < 0 || getsockname(s, (struct sockaddr *)sin, &sl) < 0) { close(s); return -1; }
-	return s;
+	/* no SO_REUSEADDR: with it two sockets may be given the same ephemeral port and the second listen() fails */
+	for (int attempt = 0; attempt < 20; attempt++) {
+		int s = socket(AF_INET, SOCK_STREAM | SOCK_NONBLOCK | SOCK_CLOEXEC, 0);
+		socklen_t sl = sizeof *sin;
+		if (s < 0) return -1;
+		memset(sin, 0, sizeof *sin);
+		sin->sin_family = AF_INET; sin->sin_addr.s_addr = htonl(INADDR_LOOPBACK); sin->sin_port = 0;
+		if (bind(s, (struct sockaddr *)sin, sizeof *sin) == 0 && listen(s, 8) == 0 && getsockname(s, (struct sockaddr *)sin, &sl) == 0) return s;
+		close(s);
+		if (errno != EADDRINUSE) return -1;
+	}
+	return -1;
 }
 /* blocking-with-deadline helpers on a non-blocking stream socket */
 static DP_UNUSED int dp_write_all(int fd, const void *p, size_t n)
